@@ -206,8 +206,9 @@ def check_instance(I, rng, col, inst_id, tier, n_states=None, states_override=No
         for pi in range(len(K.pairs)):
             pp, qq = int(K.pairs[pi, 0]), int(K.pairs[pi, 1])
             if pp == qq:
-                col.count("swap_selfing_pairs_skipped")
-                continue
+                # selfing: both "parents" are one individual, the move exchanges two copies inside one genotype (a permutation of the
+                # ordered tuple): same generic oracle - nu(y) == nu(x), equal acceptance both ways, every other individual untouched
+                col.count("swap_selfing_pairs_checked")
             np_p = int((I["counts"][pp] > 0).sum())
             np_q = int((I["counts"][qq] > 0).sum())
             for ip, iq in itertools.product(range(int(I["ploidy"][pp])), range(int(I["ploidy"][qq]))):
